@@ -15,6 +15,7 @@ import (
 func init() {
 	vfRegister("VfC09_modify2", VfC09_modify2)
 	vfRegister("VfC09_modify3", VfC09_modify3)
+	vfRegister("VfC09_session3", VfC09_session3)
 }
 
 // vfModStream is a scripted Modify stream.
@@ -59,10 +60,21 @@ type vfMsgD struct {
 	opHasE             bool
 	opEH, opEL         uint64
 	opID, opIdx        uint64
+	// an optional SECOND operation in the same request, with its own stamp
+	op2                bool
+	op2HasE            bool
+	op2EH, op2EL       uint64
+	op2ID, op2Idx      uint64
 }
 
-func vfSymMsg(i int) (*vfMsgD, *spb.ModifyRequest) {
-	d := &vfMsgD{kind: vfInt("m.kind", 0, 5), opID: uint64(i + 1), opIdx: uint64(100 + i)}
+func vfSymMsg(i int) (*vfMsgD, *spb.ModifyRequest) { return vfSymMsgK(i, -1) }
+
+// vfSymMsgK: kind >= 0 fixes the shape of the message (its contents stay symbolic).
+func vfSymMsgK(i, kind int) (*vfMsgD, *spb.ModifyRequest) {
+	d := &vfMsgD{kind: kind, opID: uint64(i + 1), opIdx: uint64(100 + i)}
+	if kind < 0 {
+		d.kind = vfInt("m.kind", 0, 5)
+	}
 	m := &spb.ModifyRequest{}
 	params := func() {
 		d.red, d.pers, d.ack = int32(vfInt("m.red", 0, 1)), int32(vfInt("m.pers", 0, 1)), int32(vfInt("m.ack", 0, 1))
@@ -81,6 +93,16 @@ func vfSymMsg(i int) (*vfMsgD, *spb.ModifyRequest) {
 			e = &spb.Uint128{High: d.opEH, Low: d.opEL}
 		}
 		m.Operation = []*spb.AFTOperation{vfNHOp(d.opID, DefaultNetworkInstanceName, d.opIdx, e)}
+		if vfBool("m.op2") {
+			d.op2, d.op2ID, d.op2Idx = true, d.opID+50, d.opIdx+50
+			var e2 *spb.Uint128
+			d.op2HasE = vfBool("m.op2.hasElection")
+			if d.op2HasE {
+				d.op2EH, d.op2EL = vfU64("m.op2.e.hi"), vfU64("m.op2.e.lo")
+				e2 = &spb.Uint128{High: d.op2EH, Low: d.op2EL}
+			}
+			m.Operation = append(m.Operation, vfNHOp(d.op2ID, DefaultNetworkInstanceName, d.op2Idx, e2))
+		}
 	}
 	switch d.kind {
 	case vfMParams:
@@ -99,7 +121,10 @@ func vfSymMsg(i int) (*vfMsgD, *spb.ModifyRequest) {
 	return d, m
 }
 
-func vfC09(k int) {
+func vfC09(k int) { vfC09K(k, nil) }
+
+// vfC09K: kinds (when given) fixes the shapes of the k messages.
+func vfC09K(k int, kinds []int) {
 	s := &Server{cs: map[string]*clientState{}, masterRIB: rib.New(DefaultNetworkInstanceName)}
 	// one other live session with arbitrary negotiated parameters
 	otherExists := vfBool("B.exists")
@@ -119,7 +144,11 @@ func vfC09(k int) {
 	st := &vfModStream{}
 	var ds []*vfMsgD
 	for i := 0; i < k; i++ {
-		d, m := vfSymMsg(i)
+		kind := -1
+		if kinds != nil {
+			kind = kinds[i]
+		}
+		d, m := vfSymMsgK(i, kind)
 		ds = append(ds, d)
 		st.msgs = append(st.msgs, m)
 	}
@@ -176,27 +205,43 @@ func vfC09(k int) {
 				wantResp++
 			}
 		case vfMOp:
-			switch {
-			case !(negotiated && sp && pers):
-				terminated = true // non-OK (suite: Unimplemented / UNSUPPORTED_PARAMS with AllowUnimplemented)
-			case !d.opHasE:
-				terminated, wantCode = true, []codes.Code{codes.FailedPrecondition}
-			case !lastSet:
-				terminated = true
-			case !selfMaster || !has:
-				wantResp++ // FAILED result, session continues
-			case !eq128(d.opEH, d.opEL, lastH, lastL):
-				wantResp++
-			case !eq128(d.opEH, d.opEL, curH, curL):
-				// stamped with the session's id but not the server's maximum: FAILED result or RPC error
-				if ge128(curH, curL, d.opEH, d.opEL) {
-					wantResp++
-				} else {
-					terminated = true
+			// every operation of the request is judged on its own, in order; the first one that ends the RPC
+			// stops the processing of the request
+			type opD struct {
+				hasE   bool
+				eH, eL uint64
+				idx    uint64
+			}
+			ops := []opD{{d.opHasE, d.opEH, d.opEL, d.opIdx}}
+			if d.op2 {
+				ops = append(ops, opD{d.op2HasE, d.op2EH, d.op2EL, d.op2Idx})
+			}
+			for _, o := range ops {
+				if terminated {
+					break
 				}
-			default:
-				installed[d.opIdx] = true
-				wantResp++
+				switch {
+				case !(negotiated && sp && pers):
+					terminated = true // non-OK (suite: Unimplemented / UNSUPPORTED_PARAMS with AllowUnimplemented)
+				case !o.hasE:
+					terminated, wantCode = true, []codes.Code{codes.FailedPrecondition}
+				case !lastSet:
+					terminated = true
+				case !selfMaster || !has:
+					wantResp++ // FAILED result, session continues
+				case !eq128(o.eH, o.eL, lastH, lastL):
+					wantResp++
+				case !eq128(o.eH, o.eL, curH, curL):
+					// stamped with the session's id but not the server's maximum: FAILED result or RPC error
+					if ge128(curH, curL, o.eH, o.eL) {
+						wantResp++
+					} else {
+						terminated = true
+					}
+				default:
+					installed[o.idx] = true
+					wantResp++
+				}
 			}
 		}
 		gotmsg = true
@@ -249,11 +294,17 @@ func vfC09(k int) {
 	}
 	// RIB: only the legitimately stamped operations of this session
 	for i := 0; i < k; i++ {
-		idx := uint64(100 + i)
-		vfAssert(vfNHInstalled(s.masterRIB, DefaultNetworkInstanceName, idx) == installed[idx], "rib-changed-only-by-legitimate-operations")
+		for _, idx := range []uint64{uint64(100 + i), uint64(150 + i)} {
+			vfAssert(vfNHInstalled(s.masterRIB, DefaultNetworkInstanceName, idx) == installed[idx], "rib-changed-only-by-legitimate-operations")
+		}
 	}
 	vfReach("end")
 }
 
 func VfC09_modify2() { vfC09(2) }
+
+// VfC09_session3: the shape of a working session - [parameters, election announcement, operation message with 1-2
+// operations] - with every content symbolic (modes, 128-bit ids, per-operation stamps): reaches the operation
+// handling that two free messages cannot.
+func VfC09_session3() { vfC09K(3, []int{vfMParams, vfMElection, vfMOp}) }
 func VfC09_modify3() { vfC09(3) }
